@@ -55,8 +55,11 @@ class Driver:
 
     def ask(self, op: str, args: dict):
         line = op + " " + json.dumps(args, separators=(",", ":"))
-        self.p.stdin.write(line + "\n")
-        self.p.stdin.flush()
+        try:
+            self.p.stdin.write(line + "\n")
+            self.p.stdin.flush()
+        except (BrokenPipeError, OSError) as e:      # the driver process is gone (killed, or its binary replaced under it)
+            raise InfraError(f"driver died ({type(e).__name__}) before: {line[:300]}")
         out = self.p.stdout.readline()
         self.n += 1
         if not out:
